@@ -21,9 +21,13 @@ def run(check):
     check.run_rule('C18.R2', lambda c: rule_merge_other(c, 'C18.R2'))
     from ..rules_modifiers import rule_stacked_anchor_getters
     check.run_rule('C18.R2b', lambda c: rule_stacked_anchor_getters(c, 'C18.R2'))
+    from ..rules_modifiers import rule_private_name_sets
+    check.run_rule('C18.R2c', lambda c: rule_private_name_sets(c, 'C18.R2'))
     check.run_rule('C18.R3', lambda c: rule_annotate_after_modifier(c, 'C18.R3'))
     check.run_rule('C18.R3b', lambda c: rule_prepare_table(c, None, 'C18.R3'))
     check.run_rule('C18.R4', lambda c: rule_descriptor_cache(c, 'C18.R4', 'C18.R1'))
     from ..rules_modifiers import rule_cache_per_descriptor
     check.run_rule('C18.R4b', lambda c: rule_cache_per_descriptor(c, 'C18.R4'))
+    from ..rules_modifiers import rule_getter_protocol
+    check.run_rule('C18.R4c', lambda c: rule_getter_protocol(c, 'C18.R4'))
     check.run_rule('C18.R1b', lambda c: rule_recursion_guard_emptied(c, 'C18.R1'))
